@@ -3,6 +3,7 @@
 # Each patch is applied to /repo (git apply), the quick check of its property is run and must report a VIOLATION
 # (exit 1), and the patch is undone straight afterwards (git checkout).  Nothing else may use /repo meanwhile.
 set -u
+export VERIF_NO_EVIDENCE=1   # runs against a patched /repo say nothing about the unchanged tree
 cd /verif
 IDS=${@:-$(ls seeded)}
 [ -z "$(git -C /repo status --short)" ] || { echo "/repo is not clean"; exit 2; }
